@@ -67,12 +67,14 @@ impl<'a, K: Ord, V, const SORTED: bool> VacantEntry<'a, K, V, SORTED> {
     }
     pub fn insert(self, v: V) -> &'a mut V {
         let idx = self.idx;
-        if idx == self.map.items.len() {
-            self.map.items.push((self.key, v));
+        self.map.items.push((self.key, v));
+        if SORTED {
+            self.map.bubble_into_place(idx);
+            &mut self.map.items[idx].1
         } else {
-            self.map.items.insert(idx, (self.key, v));
+            let last = self.map.items.len() - 1;
+            &mut self.map.items[last].1
         }
-        &mut self.map.items[idx].1
     }
 }
 
@@ -139,6 +141,16 @@ impl<K: Ord, V, const SORTED: bool> VMap<K, V, SORTED> {
         }
         Err(i)
     }
+    /// Move the element just pushed at the end down to index `i` by adjacent swaps (every
+    /// swap is at constant indices once the loop is unrolled, unlike `Vec::insert`, whose
+    /// element shift has a symbolic length when `i` is symbolic).
+    fn bubble_into_place(&mut self, i: usize) {
+        let mut j = self.items.len() - 1;
+        while j > i {
+            self.items.swap(j, j - 1);
+            j -= 1;
+        }
+    }
     pub fn get<Q: ?Sized + Ord>(&self, k: &Q) -> Option<&V>
     where
         K: core::borrow::Borrow<Q>,
@@ -176,10 +188,9 @@ impl<K: Ord, V, const SORTED: bool> VMap<K, V, SORTED> {
         match self.pos(&k) {
             Ok(i) => Some(core::mem::replace(&mut self.items[i].1, v)),
             Err(i) => {
-                if i == self.items.len() {
-                    self.items.push((k, v));
-                } else {
-                    self.items.insert(i, (k, v));
+                self.items.push((k, v));
+                if SORTED {
+                    self.bubble_into_place(i);
                 }
                 None
             }
